@@ -138,6 +138,80 @@ func c01Scenarios(tier string) []*Scenario {
 				return "", "", deliveredOutcome(x.Rec.Log)
 			},
 		})
+		// A2: no epilogue. A pass that starts after the last increment is the "one more
+		// report": once it and all other passes have completed, everything must be delivered.
+		out = append(out, &Scenario{
+			Property: "C01", Name: "A2-pass-started-after-last-inc-" + b2s(cached),
+			Body: func(x *Run) {
+				rec := &Recorder{}
+				x.Rec = rec
+				root, _ := tally.VerifNewRootScope(scopeOpts(rec, cached, false), 0, 1)
+				c := root.Counter("c")
+				c.Inc(5)
+				w := rt.GoNamed("inc", func() {
+					c.Inc(3)
+					rec.Mark("inc-done")
+				})
+				pass := func() {
+					rec.Mark("pass-start")
+					tally.VerifReportOnce(root)
+				}
+				p1 := rt.GoNamed("pass1", pass)
+				p2 := rt.GoNamed("pass2", pass)
+				w.Join()
+				p1.Join()
+				p2.Join()
+			},
+			Check: func(x *Run, o *rt.Outcome) (string, string, string) {
+				done, after := -1, false
+				for i, e := range x.Rec.Log {
+					if e.Kind == "mark" && e.Note == "inc-done" {
+						done = i
+					}
+					if e.Kind == "mark" && e.Note == "pass-start" && done >= 0 {
+						after = true
+					}
+				}
+				got := sumCounters(x.Rec.Log, 0, len(x.Rec.Log))["c{}"]
+				if after && got != 8 {
+					return "report-after-last-increment-incomplete", fmt.Sprintf("a report pass started after the last increment and every pass has completed, but only %d of 8 was delivered", got), "viol"
+				}
+				for i, e := range x.Rec.Log {
+					if e.Kind == "counter" && e.I <= 0 {
+						return "non-positive-delta", fmt.Sprintf("log[%d]: %s", i, e.String()), "viol"
+					}
+				}
+				if got > 8 {
+					return "over-delivered", fmt.Sprintf("%d delivered of 8", got), "viol"
+				}
+				return "", "", fmt.Sprint(after, deliveredOutcome(x.Rec.Log))
+			},
+		})
+		// E: two goroutines use a counter for the first time and increment it while a pass runs
+		out = append(out, &Scenario{
+			Property: "C01", Name: "E-first-use-inc-" + b2s(!cached),
+			Body: func(x *Run) {
+				rec := &Recorder{}
+				x.Rec = rec
+				root, _ := tally.VerifNewRootScope(scopeOpts(rec, !cached, false), 0, 1)
+				t1 := rt.GoNamed("inc1", func() { root.Counter("c").Inc(1) })
+				t2 := rt.GoNamed("inc2", func() { root.Counter("c").Inc(2) })
+				p := rt.GoNamed("pass", func() { tally.VerifReportOnce(root) })
+				t1.Join()
+				t2.Join()
+				p.Join()
+				tally.VerifReportOnce(root)
+				x.Vals["quiet"] = len(rec.Log)
+				tally.VerifReportOnce(root)
+			},
+			Check: func(x *Run, o *rt.Outcome) (string, string, string) {
+				cl, d := counterOracle(x.Rec.Log, map[string]int64{"c{}": 3}, x.Vals["quiet"].(int), true)
+				if cl != "" {
+					return cl, d, "viol"
+				}
+				return "", "", deliveredOutcome(x.Rec.Log)
+			},
+		})
 		// B: real report loop on the virtual ticker, increments joined, then Close
 		out = append(out, &Scenario{
 			Property: "C01", Name: "B-ticker-close-" + b2s(cached), Ticks: tierInt(tier, 1, 2),
